@@ -47,5 +47,4 @@ CasesWithFirst(i1) ==
     UNION {{Case(MkTx(Version, <<i1>> \o rest, outs, wit, Locktime), kind) :
                 rest \in SeqsOver(Ins, n - 1), outs \in SeqsUpTo(OutChoices, 1, MaxOut),
                 wit \in WitChoices(n), kind \in TrailKinds} : n \in 1..MaxIn}
-AllCases == UNION {CasesWithFirst(i) : i \in Ins}
 =============================================================================
